@@ -12,6 +12,7 @@ _sm = "rtps::submessage::verif_harness_c06_submsg"
 _da = "messages::submessages::data::verif_harness_c06_data"
 _fa = "rtps::fragment_assembler::verif_harness_c06_frag"
 _rp = "rtps::rtps_reader_proxy::verif_harness_c06_rproxy"
+_wp = "rtps::rtps_writer_proxy::verif_harness_c06_wproxy"
 
 _NOPANIC = "no reachable panic / arithmetic overflow / index out of bounds / unwrap on None (Kani's built-in checks); "
 
@@ -241,7 +242,14 @@ c06_frag_first_d8_p4 c06_frag_first_d8_p8 c06_frag_step_existing_d8_p4 c06_frag_
 c06_rproxy_mark_frags_fresh_12_le c06_rproxy_mark_frags_after_all_12_le_n4
 c06_finding_numset_iter_overflow_sn c06_finding_frag_count_overrun c06_finding_frag_inconsistent_same_sn c06_finding_frag_alloc_data_size
 """.split())
-_ALL = _numset + _parse + _data + _submsg + _frag + _rproxy + _findings
+_wproxy = [
+    H("c06_wproxy_hb_range_work_from_1", _wp,
+      "RtpsWriterProxy::missing_seqnums (what Reader::handle_heartbeat_msg runs on the wire's firstSN/lastSN): for a HEARTBEAT advertising more than 300 "
+      "sequence numbers the Vec it builds (one loop iteration per element) stays <= 300 entries (a judgement: the answering ACKNACK can carry 256), and the lowest missing SN is still first",
+      "fresh proxy; first = 1; width 301..303; the judged loop unwound completely (306)", timeout=1500),
+    H("c06_wproxy_hb_range_work_from_2_40", _wp, "same with first = 2^40", "fresh proxy; first = 2^40; width 301..303", timeout=1500),
+]
+_ALL = _numset + _parse + _data + _submsg + _frag + _rproxy + _wproxy + _findings
 assert _QUICK <= set(h["name"] for h in _ALL), sorted(_QUICK - set(h["name"] for h in _ALL))
 for _h in _ALL:
     _h["tier"] = "quick" if _h["name"] in _QUICK else "thorough"
@@ -252,7 +260,7 @@ for _h in _ALL:
 _TO_THOROUGH = {"c06_parse_inforeply_4_le", "c06_finding_numset_iter_overflow_sn", "c06_numset_iter_parsed_fn_12_le", "c06_plist_parse_12_le",
                 "c06_submsg_datafrag_l40_otn36", "c06_plist_parse_8_be", "c06_data_parse_24_qd", "c06_finding_latent_rproxy_mark_frags_beyond",
                 "c06_frag_step_existing_d8_p16", "c06_datafrag_parse_40_o37", "c06_data_parse_28_d_o25", "c06_submsg_heartbeat_l32_otn29"}
-_TO_QUICK = {"c06_finding_latent_rproxy_mark_frags_zero"}
+_TO_QUICK = {"c06_finding_latent_rproxy_mark_frags_zero", "c06_wproxy_hb_range_work_from_1"}
 # instances whose "decoder accepts" witness is unreachable at that buffer length (found VACUOUS by the first
 # complete thorough run: the length is short of / not aligned with any acceptable encoding, so only Err is possible):
 # dropped from the table rather than weakening the vacuity rule
@@ -273,6 +281,7 @@ PROP = {
         "src/messages/submessages/data.rs": ["c06_data"],
         "src/rtps/fragment_assembler.rs": ["c06_frag"],
         "src/rtps/rtps_reader_proxy.rs": ["c06_rproxy"],
+        "src/rtps/rtps_writer_proxy.rs": ["c06_wproxy"],
     }),
     "shim_files": RTPS_SHIM_FILES,
     "cap": {"quick": 4, "thorough": 4},
